@@ -301,21 +301,21 @@ def _enum_cases(depth: int, plan: list):  # noqa: ANN202
                    "depth": depth, "prefix": list(prefix), "ops": []}
 
 
+ENUM_DEPTH = {"quick": 5, "thorough": 6}
+ENUM_PLAN = {"quick": [("core", 500), ("core", 1), ("alt", 1)],
+             "thorough": [("core", 500), ("core", 1), ("alt", 1), ("alt", 500), ("core", 2)]}   # (alphabet, cache sizes)
+MAX_OPS = {"quick": 60, "thorough": 200}
+RANDOM_PER_BATCH = {"quick": 30, "thorough": 12}
+
+
 def cases(tier: str, base_seed: int):  # noqa: ANN201
-    if tier == "thorough":
-        depth = 6
-        plan = [("core", 500), ("core", 1), ("alt", 1), ("alt", 500), ("core", 2)]
-        max_ops = 200
-    else:
-        depth = 5
-        plan = [("core", 500), ("core", 1), ("alt", 1)]
-        max_ops = 60
+    tier = tier if tier in ENUM_DEPTH else "quick"
+    max_ops = MAX_OPS[tier]
     # interleave: the runner's budget may end before the enumeration does, the random stream must get its share
-    enum = _enum_cases(depth, plan)
     i = 0
-    for batch in enum:
+    for batch in _enum_cases(ENUM_DEPTH[tier], ENUM_PLAN[tier]):
         yield batch
-        for _ in range(12 if tier == "thorough" else 30):
+        for _ in range(RANDOM_PER_BATCH[tier]):
             yield _random_case(base_seed + i, max_ops)
             i += 1
     while True:
